@@ -167,11 +167,11 @@ def run(rep, tier):
         conds = getattr(fe, "conds", {})
         for k_ in (0, 1, 2):
             sub = {n_un: sp.Integer(k_)}
-            xc, xt = executes(calls[0], sub, None, None, conds), executes(throws[0], sub, None, None, conds)
-            if xc is None or xt is None:
-                # truthiness tests  !size / size  are decided by the number itself
-                xc = executes(calls[0], sub, {"some": k_ > 0}, lambda lf: ("some", True) if lf == n_un else None, conds)
-                xt = executes(throws[0], sub, {"some": k_ > 0}, lambda lf: ("some", True) if lf == n_un else None, conds)
+            # truthiness tests  !size / size / empty()  are decided by the number itself
+            un_ = Fn("getUnexploredVertex")(S("this"), S(ep))
+            cnt_orc = lambda lf: ("some", True) if lf == n_un else ("some", False) if lf == Fn("empty")(un_) else None
+            xc = executes(calls[0], sub, {"some": k_ > 0}, cnt_orc, conds)
+            xt = executes(throws[0], sub, {"some": k_ > 0}, cnt_orc, conds)
             if (xc, xt) != ((k_ == 1), (k_ == 2)):
                 ok, why = False, "with %d unexplored end(s) the vertex is %sexplored and the error is %sraised" % (k_, "" if xc else "not ", "" if xt else "not ")
                 break
